@@ -88,6 +88,21 @@ def zero_amount_control(e, g):
     return alts or None
 
 
+def other_amount_control(e, g):
+    """the same call with a different amount that the specification accepts"""
+    a = e['act']
+    if not e['exp']['ok'] or 'amt' not in a:
+        return None
+    alts = []
+    for ei in g.out[e['_pre']]:
+        o = g.edges[ei]
+        b = o['act']
+        if o['exp']['ok'] and b['name'] == a['name'] and b.get('amt') != a['amt'] and \
+                all(b.get(k) == a.get(k) for k in a if k != 'amt'):
+            alts.append([b])
+    return alts[:3] or None
+
+
 PROPS = {
     "C02": {
         "title": "Each message is approved once and executed once, only by its destination",
@@ -206,6 +221,20 @@ PROPS = {
         "rule": "cases = transitions of the bounded TLC instances replayed against the contract; distinct = distinct (abstract pre-state, action) pairs",
         "assumptions": ["soroban-env-host test mode implements on-chain semantics incl. temporary-entry expiry", "host max_ttl is read at run time and must equal the instance's MaxLive",
                         "bounds: 3 users + owner, supply <= 2 units, one allowance pair, ledger 1..3"],
+    },
+    "C14": {
+        "title": "The gas service holds exactly what was paid in minus what its collector paid out",
+        "policy": {"guards": ["positive_amount", "negative_amount", "collector_auth", "sufficient_balance", "balance"],
+                   "fields": ["bal"], "events": ["gas_paid", "gas_added", "gas_collected", "gas_refunded"], "rets": []},
+        "jobs": [
+            {"kind": "graph", "spec": "MC_C14", "module": "GasService", "evkinds": ["gas_paid", "gas_added", "gas_collected", "gas_refunded"],
+             "need": ["PayGas/ok", "PayGas/positive_amount", "PayGas/balance", "AddGas/ok", "CollectFees/ok",
+                      "CollectFees/collector_auth", "CollectFees/sufficient_balance", "Refund/ok", "Refund/collector_auth", "Refund/sufficient_balance"],
+             "control": other_amount_control, "quick_edges": 25000},
+        ],
+        "level_text": "TLC proves the step rules (exact movement between spender/receiver and the service, per-token conservation, pay-outs only with the collector's authorisation and never beyond the holding, one event with the same token and amount, rejected calls move nothing) on every transition of a finite instance (all interleavings); the transitions are executed against the real gas service with a Stellar asset contract and the natively registered interchain token, comparing every balance of both tokens after every step.",
+        "rule": "cases = transitions of the bounded TLC instance replayed against the contracts; distinct = distinct (abstract pre-state, action) pairs",
+        "assumptions": ["soroban-env-host test mode implements on-chain semantics incl. the built-in Stellar asset contract", "bounds: 2 tokens x 3 units, 2 spenders, 2 receivers, amounts -1..3"],
     },
 }
 
